@@ -195,6 +195,9 @@ class World:
 
     def _apply_template(self, o, tmpl, creating=False):
         for e in tmpl or []:
+            if e[1] == "t":
+                o.attrs[e[0]] = {x[0]: bytes.fromhex(x[2]) for x in e[2] if x[1] == "x"}
+                continue
             if e[1] != "x":
                 continue
             t = e[0]; v = bytes.fromhex(e[2])
